@@ -205,6 +205,10 @@ class Rep:
 
 
 def _unwrap_rep(r: Rep) -> Any:
+    if r.mode == "after_frame":
+        # one frame of progress first, THEN a self-returning chain of n: the count starts afresh after the frame
+        inner = Rep(r.n, "self")
+        return (D.POOL_GENS[6].gi_frame, inner)
     if r.count < r.n:  # symbolic comparison: the solver splits n here
         r.count += 1
         if r.mode == "self":
@@ -235,6 +239,12 @@ def guard_case(n: Any, mode: str) -> Dict[str, Any]:
     if mode == "progress":
         ok = nf == nn + 1 and st.error is None and st.leaf is None
         return {"ok": ok, "why": f"progress chain n={nn}: frames={nf} error={st.error!r}", "n": nn}
+    if mode == "after_frame":
+        if nn <= 99:
+            ok = nf == 2 and st.error is None and st.leaf is None
+        else:
+            ok = nf == 1 and isinstance(st.error, RuntimeError) and isinstance(st.leaf, Rep) and st.frames[0].pyframe is D.POOL_GENS[6].gi_frame
+        return {"ok": ok, "why": f"a frame, then a self-returning chain n={nn}: frames={nf} error={st.error!r} leaf={st.leaf!r}", "n": nn}
     if nn <= 99:
         ok = nf == 1 and st.error is None and st.leaf is None and st.frames[0].pyframe is D.POOL_GENS[7].gi_frame
     else:
@@ -278,7 +288,7 @@ def run(rep: Any, tier: str, seed: int) -> None:
     res = par.run_shards("harness.c10", "_rules_shard", shards)
     for c in par.fold(rep, OBLIG_RULES, res):
         rep.counterexample(OBLIG_RULES, c, c["why"])
-    gsh = [{"mode": m, "hi": 130} for m in ("self", "fresh", "progress")]
+    gsh = [{"mode": m, "hi": 130} for m in ("self", "fresh", "progress", "after_frame")]
     res = par.run_shards("harness.c10", "_guard_shard", gsh)
     for c in par.fold(rep, OBLIG_GUARD, res):
         rep.counterexample(OBLIG_GUARD, c, c["why"])
